@@ -30,10 +30,10 @@ Judge(e, x, expres) ==
   /\ (e.res # "panic" /\ ~p.panic) =>
        /\ Report("C12:result", e.res = expres)
        /\ Report("C12:arguments", /\ p.nargs = Cardinality(DOMAIN x.live) /\ p.len = p.nargs
-                                   /\ p.empty = (p.nargs = 0)
-                                   /\ Len(p.args) = p.nargs
-                                   /\ Pairs(p.args) = {<<lb, x.live[lb]>> : lb \in DOMAIN x.live}
-                                   /\ p.byid)
+                                  /\ p.empty = (p.nargs = 0)
+                                  /\ Len(p.args) = p.nargs
+                                  /\ Pairs(p.args) = {<<lb, x.live[lb]>> : lb \in DOMAIN x.live}
+                                  /\ p.byid)
        /\ Report("C12:ids", /\ \A k \in 1..Len(p.has) : p.has[k] = ((k - 1) \in St!LiveIds(x))
                             /\ \A g \in ToSet(p.get) : g[2] = (IF St!Known(x, g[1]) THEN x.live[g[1]] ELSE NoId))
        /\ Report("C12:attack_count", p.natt = Cardinality(x.att))
